@@ -179,15 +179,27 @@ Definition check_index (c : idx_case) : list string :=
         the emitted artifacts (layout blobs, flattened layers).  The MODEL side goes through
         Model/SbomProv.v (what pkg/build/sbom.go hands to the generator, as goextract reads
         it); the VALIDATORS use Spec/SbomProvSpec.v's expected_input, written down directly. *)
-Inductive e2e_case := EImg (b : built) (o : obs) | EIdx (bi : built_index) (o : obs).
+(* [lfs]: the extracted licensing infos of the embedded documents by file name; [lics]: those of the emitted SBOM *)
+Inductive e2e_case := EImg (b : built) (lfs : list (string * list linfo)) (o : obs) (lics : list linfo) | EIdx (bi : built_index) (o : obs).
 Definition check_e2e (c : e2e_case) : list string :=
   match c with
-  | EImg b o =>
+  | EImg b lfs o lics =>
       let g := expected_input b in
+      let used := used_lists (g_fs g) lfs (g_apks g) in
       (match o with ODoc _ => [] | _ => ["viol:e2e-image-sbom-missing"] end) ++
       try_perms_m (fun p => image_sbom p b) o [0; 1; 2; 3; 4; 5] [] ++
       match o with
-      | ODoc d => validate_gen g d
+      | ODoc d =>
+          (* the merged licensing infos do not depend on the map order *)
+          (match image_sbom_full (fun l => l) b lfs with
+           | Ok (_, l) => tag_if (negb (list_eqb linfo_eqb l lics)) "mismatch:generate-licensing-infos"
+           | Err => match image_sbom (fun l => l) b with Ok _ => ["mismatch:generate-licensing-outcome"] | _ => [] end
+           | _ => []
+           end) ++
+          validate_gen g d ++
+          tag_if (negb (nodup_b (lic_ids lics))) "viol:licensing-dup-id" ++
+          tag_if (negb (forallb (fun l => forallb (fun i => lmem i lics) l) used)) "viol:licensing-info-lost" ++
+          tag_if (negb (forallb (fun i => existsb (fun l => lmem i l) used) lics)) "viol:licensing-info-from-nowhere"
       | OErr => []
       | OPanic => match g_layers g with [] => [] | _ => ["viol:generate-panics"] end
       end
